@@ -11,7 +11,7 @@ require (
 	github.com/rs/zerolog v1.33.0 // indirect
 	github.com/tidwall/geodesic v1.52.4
 	golang.org/x/sys v0.29.0 // indirect
-	golang.org/x/text v0.21.0 // indirect
+	golang.org/x/text v0.21.0
 	gonum.org/v1/gonum v0.15.1
 )
 
